@@ -68,7 +68,7 @@ CLAIMED = {
         technique=A + 'symbolic real magnitudes, dimension table enumerated by the solver', ref='DESIGN.md 4/C11'),
     'C17': dict(
         text='The real work-list loop of GenerateRxnNet runs over abstract species with a symbolic successor relation '
-             '(<= 4 species, <= 2 rules, <= 2 products per application), symbolic valence flags, and species of 1-3 atoms '
+             '(<= 4 species, <= 2 rules, <= 2 products per application), symbolic valence flags, and species of 1-2 atoms '
              'with a symbolic proper-substructure relation between them; z3-driven exploration '
              'of every relation shows the result is the duplicate-free closure and that generation terminates (fuel). '
              'Bounded exhaustive.',
